@@ -582,10 +582,15 @@ class Canon:
         node = _adjacent_def_use(node)
         node = self._close(node)
         node = _Small().visit(node)
+        # nested multi-statement defs: their own single-assignment locals
+        for sub in [x for x in ast.walk(node) if isinstance(x, ast.FunctionDef) and x is not node]:
+            new = self._close(copy.deepcopy(sub))
+            sub.body = new.body
         node = _IfExp().visit(node)
         node.body = _hoist(_Blocks().block(node.body, "func"))
         node = self._calls(f, node)
         ast.fix_missing_locations(node)
+        node._canonical = True
         self._cache[k] = node
         return node
 
@@ -780,6 +785,18 @@ def _root_name(e):
     return e.id if isinstance(e, ast.Name) else None
 
 
+def _sans_local_mutators(e):
+    """the expression with `local.append(x)` style calls replaced by their arguments (they change a local container, not the state of an object)"""
+    class T(ast.NodeTransformer):
+        def visit_Call(self, n):
+            self.generic_visit(n)
+            if isinstance(n.func, ast.Attribute) and n.func.attr in MUTATORS and isinstance(n.func.value, ast.Name) and n.func.value.id not in ("self", "cls"):
+                return ast.Tuple(elts=list(n.args) + [k.value for k in n.keywords], ctx=ast.Load())
+            return n
+
+    return T().visit(copy.deepcopy(e))
+
+
 def _own_nodes(st):
     """expression nodes that belong to the statement itself (not to statements nested in its blocks); a nested def counts as one statement"""
     if isinstance(st, (ast.FunctionDef, ast.AsyncFunctionDef, ast.ClassDef)):
@@ -847,7 +864,17 @@ def _aliases(fn):
     value, site, banned, mutated, loads, last_use = {}, {}, set(), set(), {}, {}
     name_stores = {}   # name -> [(order, loops)]
     text_stores = {}   # text of a stored attribute / subscripted object -> [(order, loops)]
+    impure_at, loops_at, use_sites = {}, {}, {}
     for st, order, loops, in_try, body, i in table:
+        loops_at[order] = loops
+        if not isinstance(st, (ast.FunctionDef, ast.AsyncFunctionDef, ast.ClassDef)):
+            heads = [st] if not any(isinstance(getattr(st, f_, None), list) and getattr(st, f_) and isinstance(getattr(st, f_)[0], ast.stmt) for f_ in ("body", "orelse", "finalbody")) \
+                else [x for x in (getattr(st, "test", None), getattr(st, "iter", None)) if x is not None] + [it.context_expr for it in getattr(st, "items", [])]
+            impure_at[order] = any(not _is_pure(_sans_local_mutators(h.value if isinstance(h, (ast.Assign, ast.Expr, ast.Return, ast.AugAssign)) and h.value is not None else h))
+                                   for h in heads if not isinstance(h, (ast.Pass, ast.Break, ast.Continue)))
+        for n in _own_nodes(st):
+            if isinstance(n, ast.Name) and isinstance(n.ctx, ast.Load):
+                use_sites.setdefault(n.id, []).append(order)
         if isinstance(st, ast.Assign) and len(st.targets) == 1 and isinstance(st.targets[0], ast.Name):
             n = st.targets[0].id
             value[n] = st.value
@@ -934,6 +961,17 @@ def _aliases(fn):
         uses = loads.get(k, 0)
         if uses == 0:
             continue  # `_ = self.data`: evaluated for its effect (a property read), stays as written
+        if any(isinstance(x, ast.Attribute) for x in ast.walk(v)):
+            # a value that reads object state does not move across a statement that may change the state (a call with possible effects):
+            # neither a statement between the assignment and the last use, nor the body of a loop that is entered after the assignment
+            us = use_sites.get(k, [])
+            barrier = any(impure_at.get(o, False) for o in range(order + 1, int(max(us)) if us else order))
+            for u in us:
+                for lp in loops_at.get(u, ()):
+                    if lp not in loops and any(impure_at.get(o, False) for o, l in loops_at.items() if lp in l):
+                        barrier = True
+            if barrier:
+                continue
         fresh = (isinstance(v, (ast.List, ast.Dict, ast.Set)) and not (getattr(v, "elts", None) or getattr(v, "keys", None))) or \
             (isinstance(v, ast.Call) and (v.func.attr if isinstance(v.func, ast.Attribute) else getattr(v.func, "id", "")) in FRESH)
         if _is_pure(v):
@@ -1147,4 +1185,5 @@ def close_paths(fn):
         fn = _Drop(sel).visit(fn)
         fn = _SubstAll(sel).visit(fn)
         ast.fix_missing_locations(fn)
+    fn._canonical = True
     return fn
